@@ -276,6 +276,22 @@ def check_phys(prog, noise, ev, rate):
                     lrho = np.outer(lr.ravel(), lr.ravel().conj()) if ls.isket else lr
                     if lrho.shape == rho.shape and np.abs(lrho - rho).max() > 2e-4:
                         out.append((f"C11:v2-state-differs-from-legacy:{noise}", f"{prog}/{ev}/rate={rate} t={t}: max diff {np.abs(lrho - rho).max():.3g}"))
+        # the same configuration handed over as a GENERIC EmulationConfig (backend-specific options such as the sampling rate travel as
+        # extra keyword arguments): same run as with the backend's own configuration class
+        if ev == "default":
+            from pulser.backend import EmulationConfig
+
+            try:
+                gen = EmulationConfig(observables=[StateResult()], default_evaluation_times=times, noise_model=nm, sampling_rate=rate)
+                gres = QutipBackendV2(seq, config=gen).run()
+                gtag = gres.get_result_tags()[0]
+                gst = gres.get_result(gtag, gres.get_result_times(gtag)[-1]).to_qobj()
+                gm = gst.full()
+                grho = np.outer(gm.ravel(), gm.ravel().conj()) if gst.isket else gm
+                if grho.shape != rho.shape or np.abs(grho - rho).max() > 1e-7:
+                    out.append((f"C11:generic-config-run-differs-from-the-backend-config-run:rate={rate}", f"{prog}/{noise}: final states differ by {np.abs(grho - rho).max() if grho.shape == rho.shape else 'shape'}"))
+            except Exception as e:
+                out.append((f"C11:generic-config-refused:{type(e).__name__}", f"{prog}/{noise}/rate={rate}: {e}"[:200]))
         # further entry points on the same program (once per program / noise): the older QutipBackend with an EmulatorConfig, and
         # both backends told to prefer the DEVICE's default noise model (which is then this noise model, the config's own being empty)
         if ev == "default" and rate == 1.0 and legacy_err is None:
